@@ -899,6 +899,14 @@ func streamCont(o *Out, r *rand.Rand, n int, thorough bool) {
 		{"t = make([][]int64, 1)\nt[0] = [1, 2, 3]\nfunc k() { t[0] = [7, 8, 9]; return 2 }\nt[0][:k()]", "[]int64[int64:1 int64:2]"},
 		{"ms = [{\"a\": 1}]\nold = ms[0]\nfunc k() { ms[0] = {\"a\": 2, \"b\": 3}; return \"a\" }\ndelete(ms[0], k())\n[len(old), len(ms[0])]", "[]iface[int64:0 int64:2]"},
 		{"m = {\"a\": 1}\nold = m\nfunc k() { m = {\"a\": 2, \"b\": 3}; return \"a\" }\ndelete(m, k())\n[len(old), len(m)]", "[]iface[int64:0 int64:2]"},
+		// the value of an assignment expression is the value assigned, whatever kind of place it was stored in
+		{"v = 1\nx = (v += 1)\nx", "int64:2"},
+		{"r = [1]\nx = (r[0] += 1)\nx", "int64:2"},
+		{"m = {\"k\": 1}\nx = (m[\"k\"] += 1)\n[x, m[\"k\"]]", "[]iface[int64:2 int64:2]"},
+		{"m = {\"k\": 1}\nx = (m.k += 1)\n[x, m.k]", "[]iface[int64:2 int64:2]"},
+		{"mm = make(map[string]int64)\nmm[\"a\"] = 1\nx = (mm[\"a\"] += 2)\nx", "int64:3"},
+		{"m = {\"k\": 1}\nx = (m[\"k\"]++)\n[x, m[\"k\"]]", "[]iface[int64:2 int64:2]"},
+		{"s = make(S)\nx = (s.A += 4)\nx", "int64:4"},
 		// a compound assignment on a variable gives the variable the result of the operator - its type included - wherever the variable's
 		// value came from
 		{"ints = make([]int64, 1)\nints[0] = 1\nn = ints[0]\nn += 0.5\nn", "float64:1.5"},
